@@ -3,6 +3,7 @@ package main
 // Loop cutting: invariants (declared and inferred candidates), havoc, back edges.
 
 import (
+	"strings"
 	"fmt"
 	"go/token"
 	"go/types"
@@ -118,6 +119,21 @@ func (fr *Frame) candidates(li *loopInfo) []autoInv {
 			}
 		}
 	}
+	// (e) slices built inside the function stay fresh (or nil) across iterations
+	for _, phi := range fr.phis(h) {
+		phi := phi
+		if !isSlice(phi.Type()) {
+			continue
+		}
+		name := phi.Comment
+		if name == "" {
+			name = phi.Name()
+		}
+		cs = append(cs, autoInv{fmt.Sprintf("%s fresh-or-nil", name), func(fr *Frame, st *State, pv map[*ssa.Phi]Val, _ *State) Term {
+			a := pv[phi].L[0]
+			return Or(Eq(a, Int(0)), And(Gt(a, fr.entry.alloc), Le(a, st.alloc)))
+		}})
+	}
 	// (c) ghost fields of interface/pointer parameters: booleans unchanged, ints monotone
 	var gnames []string
 	for k := range fr.ex.P.db.Ghosts {
@@ -161,6 +177,70 @@ func (fr *Frame) candidates(li *loopInfo) []autoInv {
 					return Ge(Select(st.get(h), r), Select(entry.get(h), r))
 				}})
 			}
+		}
+	}
+	// (f) frame candidates: a heap the loop may write is unchanged on the objects
+	// that existed when the function was entered
+	var hnames []string
+	for n := range fr.ex.P.knownHeaps {
+		hnames = append(hnames, n)
+	}
+	sort.Strings(hnames)
+	for _, n := range hnames {
+		hk := fr.ex.P.knownHeaps[n]
+		if hk.Dim < 1 || !(li.keys[hk.Key] || li.keys["*"]) || strings.HasPrefix(hk.Key, "K:") || strings.HasPrefix(hk.Key, "CH:") {
+			continue
+		}
+		cs = append(cs, autoInv{"frame " + n, func(fr *Frame, st *State, _ map[*ssa.Phi]Val, entry *State) Term {
+			hh := fr.ex.heaps[hk.Name]
+			if hh == nil {
+				// register under the same name
+				fr.ex.heaps[hk.Name] = &HeapInfo{Name: hk.Name, Sort: hk.Sort, Key: hk.Key, Dim: hk.Dim, Leaf: hk.Leaf}
+				hh = fr.ex.heaps[hk.Name]
+			}
+			r := Term{"lf", SInt}
+			return Forall([]string{"lf"}, Implies(And(Le(Int(1), r), Le(r, fr.entry.alloc)), Eq(Select(st.get(hh), r), Select(entry.get(hh), r))))
+		}})
+	}
+	// (g) fields of objects named by pointers defined outside the loop keep their value
+	var ptrs []ssa.Value
+	for _, pv := range fr.fn.Params {
+		ptrs = append(ptrs, pv)
+	}
+	for _, b := range fr.fn.Blocks {
+		if li.body[b] || !b.Dominates(h) {
+			continue
+		}
+		for _, in := range b.Instrs {
+			if a, ok := in.(*ssa.Alloc); ok {
+				ptrs = append(ptrs, a)
+			}
+		}
+	}
+	for _, pv := range ptrs {
+		pt, ok := under(pv.Type()).(*types.Pointer)
+		if !ok || !isStruct(pt.Elem()) {
+			continue
+		}
+		root := typeName(pt.Elem())
+		pv := pv
+		for _, n := range hnames {
+			hk := fr.ex.P.knownHeaps[n]
+			if hk.Dim != 1 || !strings.HasPrefix(n, "H$"+root+"$") || !(li.keys[hk.Key] || li.keys["*"]) {
+				continue
+			}
+			cs = append(cs, autoInv{fmt.Sprintf("keep %s%s", exprLabel(fr, pv), strings.TrimPrefix(n, "H$"+root+"$")), func(fr *Frame, st *State, _ map[*ssa.Phi]Val, entry *State) Term {
+				hh := fr.ex.heaps[hk.Name]
+				if hh == nil {
+					fr.ex.heaps[hk.Name] = &HeapInfo{Name: hk.Name, Sort: hk.Sort, Key: hk.Key, Dim: hk.Dim, Leaf: hk.Leaf}
+					hh = fr.ex.heaps[hk.Name]
+				}
+				v, ok := fr.vals[pv]
+				if !ok || len(v.L) != 1 || (v.P != nil && !isDefaultLoc(v.T, v.P)) {
+					return True
+				}
+				return Eq(Select(st.get(hh), v.L[0]), Select(entry.get(hh), v.L[0]))
+			}})
 		}
 	}
 	// (d) per-type parameter invariants (paraminv) are natural loop invariants
